@@ -194,6 +194,10 @@ func (e *Exec) harnessIntrinsic(short string, args []Value) (Value, bool) {
 			e.raceOn = val != 0
 		case "maxsteps":
 			e.maxSteps = val
+		case "depthviolation":
+			// a call stack deeper than this is reported as a violation (unbounded recursion: natively a stack
+			// overflow, which kills the process) instead of as an unwinding failure
+			e.depthViol = val
 		default:
 			panic("vcfg: unknown key " + key)
 		}
